@@ -64,7 +64,8 @@ def plan(stage, tier):
     """-> list of units for the stage ('function' covers kinds function+free, 'operator' covers operator)."""
     thorough = tier == 'thorough'
     units = []
-    if stage == 'function':
+    if stage in ('function', 'function-basic'):  # -basic: float and int only, for the secondary configurations
+        thorough = thorough and stage == 'function'
         tqs = [(t, 'packed_highp') for t in (ALL_TYPES if thorough else QUICK_TYPES)]
         if thorough:
             tqs += [('float', 'packed_mediump'), ('int', 'packed_lowp')]
@@ -96,6 +97,7 @@ def plan(stage, tier):
 
 
 PRELUDE = {
+    'function-basic': '#define C17_EXPECT_FUNCTION 1\n#define C17_WITH_FREE 1\n#include "props/C17_swizzle_shard.cpp"\n',
     'function': '#define C17_EXPECT_FUNCTION 1\n#define C17_WITH_FREE 1\n#include "props/C17_swizzle_shard.cpp"\n',
     'operator': '#define C17_EXPECT_OPERATOR 1\n#include "props/C17_swizzle_shard.cpp"\n',
 }
